@@ -267,6 +267,7 @@ def check_case(ck, lib, gm, seed, nsteps, stats):
   stats['sensors'] += ns
   stats['gen_excluded'] = stats.get('gen_excluded', 0) + info.get('excluded_static_acc', 0)
   stats['rk4_excluded'] = stats.get('rk4_excluded', 0) + info.get('excluded_rk4_delay', 0)
+  stats['ekin_excluded'] = stats.get('ekin_excluded', 0) + info.get('excluded_ekinetic_energyflag', 0)
   if nefc > 0:
     stats['nefc>0'] += 1
   labels = ['nefc>0' if nefc else 'nefc=0', 'ncon>0' if int(d.ncon) else 'ncon=0', 'nsteps=%d' % nsteps]
@@ -329,6 +330,48 @@ def static_acc_probe(ck, lib, n):
     ck.case(nontrivial=False, key=(xml, seed), labels=['static-acc-probe'])
   ck.run_hypothesis(test, static_acc_cases(), n, name='static-acc-probe')
   ck.extra['static_acc_probe_hits'] = hits[0]
+
+
+@st.composite
+def ekinetic_cases(draw):
+  flag = draw(st.booleans())
+  xml = ('<mujoco><option timestep="%s" integrator="%s">%s</option><worldbody><body pos="0 0 1">'
+         '<joint type="%s" axis="0 1 0"/><geom type="capsule" fromto="0 0 0 %s 0 0" size=".05"/>'
+         '<body pos=".3 0 0"><joint type="hinge" axis="%s"/><geom size=".07" pos=".1 0 .1"/></body></body></worldbody>'
+         '<sensor>%s</sensor></mujoco>' % (
+             mg.fmt(draw(mg.num(0.001, 0.01, 3))), draw(st.sampled_from(['Euler', 'RK4', 'implicit', 'implicitfast'])),
+             '<flag energy="enable"/>' if flag else '', draw(st.sampled_from(['hinge', 'ball', 'free'])),
+             mg.fmt(draw(mg.num(0.2, 0.6, 1))), mg.fmt([draw(st.integers(-2, 2)), draw(st.integers(-2, 2)), 1]),
+             draw(st.sampled_from(['<e_kinetic/>', '<e_potential/><e_kinetic/>', '<jointvel joint="j"/><e_kinetic/>'
+                                   ]).map(lambda x: x.replace('<jointvel joint="j"/>', '<clock/>')))))
+  return dict(xml=xml, flag=flag, seed=draw(mg.state_seed()), nsteps=draw(st.integers(0, 4)))
+
+
+def ekinetic_probe(ck, lib, n):
+  """sensor/e_kinetic 'returns the kinetic energy' = 1/2 v'Mv (option/flag/energy) at the CURRENT state."""
+  hits = [0]
+
+  def test(c):
+    m = lib.model_from_xml(c['xml'])
+    d = lib.make_data(m)
+    mg.apply_state(lib, m, d, c['seed'])
+    for _ in range(c['nsteps']):
+      lib.mj_step(m, d)
+    lib.mj_forward(m, d)
+    i = int(m.nsensor) - 1
+    got = float(d.sensordata[int(m.sensor_adr[i])])
+    want = 0.5 * float(d.qvel @ lib.fullM(m, d) @ d.qvel)
+    if abs(got - want) > 1e-12 * (1 + abs(want)):
+      msg = 'e_kinetic reads %.17g, 1/2 v.M.v = %.17g after %d steps (energy flag %s)\n%s' % (
+          got, want, c['nsteps'], c['flag'], c['xml'])
+      if c['flag']:
+        ck.violation(msg, c, bucket='known:ekinetic-stale', fingerprint='C28:ekinetic-stale')
+        hits[0] += 1
+        return
+      raise Violation(msg, bucket='law:e_kinetic')
+    ck.case(nontrivial=False, key=(c['xml'], c['seed'], c['nsteps']), labels=['ekinetic-probe'])
+  ck.run_hypothesis(test, ekinetic_cases(), n, name='ekinetic-probe')
+  ck.extra['ekinetic_probe_hits'] = hits[0]
 
 
 DELAY_SENSORS = ['<jointpos joint="j"%s/>', '<jointvel joint="j"%s/>', '<framepos objtype="site" objname="s"%s/>',
@@ -433,9 +476,10 @@ def main(ck):
   def test(case):
     gm, seed, nsteps = case
     check_case(ck, lib, gm, seed, nsteps, stats)
-  ck.run_hypothesis(test, strat, ck.budget(260, 12000), name='sensors')
+  ck.run_hypothesis(test, strat, ck.budget(700, 12000), name='sensors')
   static_acc_probe(ck, lib, ck.budget(20, 300))
   delay_probe(ck, lib, ck.budget(40, 600))
+  ekinetic_probe(ck, lib, ck.budget(30, 300))
   ck.extra['coverage_by_type_object_reference_level'] = dict(sorted(stats['cov'].items()))
   ck.extra['worst_error_over_tolerance_by_class'] = stats['worst']
   ck.extra['deep_and_nefc_by_type'] = dict(stats['deep'])
@@ -445,6 +489,7 @@ def main(ck):
   ck.extra['static_acc_exclusions'] = dict(stats['findings'])
   ck.extra['static_acc_exclusions']['generator_candidates_removed'] = stats['gen_excluded']
   ck.extra['rk4_delay_exclusions'] = stats.get('rk4_excluded', 0)
+  ck.extra['ekinetic_energyflag_exclusions'] = stats.get('ekin_excluded', 0)
 
 
 LEVEL = 'exploration'
